@@ -63,7 +63,8 @@ Inductive expr :=
 | EDict (ks vs : list expr)                 (* {k1: v1, ...}: the printer always emits equal lengths *)
 | ENot (e : expr) | EIsNone (e : expr) | EIsNotNone (e : expr) | EIsInst (e : expr) (c : cls)
 | EAnd (a b : expr) | EOr (a b : expr) | EIf (c a b : expr)      (* a if c else b *)
-| ECall (f : fname) (args : list expr).
+| ECall (f : fname) (args : list expr)
+| ESub (e i : expr).                        (* e[i]: subscript of a list/tuple value by an int/bool value *)
 
 Inductive stmt :=
 | SAssign (x : name) (e : expr)
@@ -173,6 +174,22 @@ Definition isinst (v : value) (c : cls) : bool :=
   | Cset => match v with VSet _ => true | _ => false end
   end.
 
+(* e[i] on lists and tuples (BINARY_SUBSCR): the index is an int or a bool, negative indices count from the end,
+   an index out of range raises IndexError (None: the program does not complete).  Subscripts of other values
+   (str, bytes, dict) are outside the fragment: None. *)
+Definition norm_idx (z : Z) (n : nat) : option nat :=
+  if ((0 <=? z) && (z <? Z.of_nat n))%Z then Some (Z.to_nat z)
+  else if ((z <? 0) && (- Z.of_nat n <=? z))%Z then Some (Z.to_nat (z + Z.of_nat n)) else None.
+Definition seq_items (v : value) : option (list value) :=
+  match v with VList xs | VTuple xs => Some xs | _ => None end.
+Definition idx_val (i : value) : option Z :=
+  match i with VInt z => Some z | VBool b => Some (if b then 1 else 0)%Z | _ => None end.
+Definition csub (v i : value) : option value :=
+  match seq_items v, idx_val i with
+  | Some xs, Some z => match norm_idx z (length xs) with Some k => nth_error xs k | None => None end
+  | _, _ => None
+  end.
+
 Definition store := list (name * value).
 Fixpoint slook (s : store) (x : name) : option value :=
   match s with [] => None | (y, v) :: s' => if y =? x then Some v else slook s' x end.
@@ -238,6 +255,7 @@ Section CLevel.
     | EIf c a b => obind (ceval_expr locs st c)
                      (fun vc => if truthy vc then ceval_expr locs st a else ceval_expr locs st b)
     | ECall f es => obind (evals es) (fun vs => ccall ft (cg st) f vs)
+    | ESub e' i => obind (ceval_expr locs st e') (fun v => obind (ceval_expr locs st i) (fun vi => csub v vi))
     end.
 
   Definition cevals (locs : option (list name)) (st : cstate) := cevals_with (fun e1 => ceval_expr locs st e1).
@@ -548,6 +566,47 @@ Definition columns (n : nat) (rows : list (list aval)) : list (list aval) := map
 
 Definition is_astr (a : aval) : bool := match a with AStr _ => true | _ => false end.
 
+(* Subscripts.  abstract.List.getitem_slot: for a concrete list, every binding of the index VARIABLE that is an
+   int constant in range selects that element's variable; if some binding of the index variable is not such a
+   constant, the pytd result (the T parameter: all element bindings) is added.  abstract.TupleClass.getitem_slot:
+   the element's variable when the index variable has exactly ONE binding and it is an int constant in range
+   (get_atomic_value), otherwise the pytd result on a fresh instance of the tuple's class.  convert's
+   value_to_constant(_, int) accepts a bool constant (True is 1).
+   [idxs] are the bindings of the index variable over all rows.  Strict mode answers row by row (a world knows its
+   own index binding; all element bindings when that is not a constant in range: sound, and below what pytype
+   keeps); lazy mode mirrors the variable-level decisions (tuples with an undecided index: Any, an upper bound of
+   the class instances pytype creates).  Any[...] is Any; other receivers are outside the fragment (no result). *)
+Definition idx_of (ai : aval) : option Z :=
+  match ai with
+  | AInt (Some z) => Some z
+  | ABool (Some b) => Some (if b then 1 else 0)%Z
+  | _ => None
+  end.
+Definition sub_elems (a : aval) : option (list (list aval)) :=
+  match a with AList el | ATuple el => Some el | _ => None end.
+Definition sub_resolved (a ai : aval) : option (list aval) :=
+  match sub_elems a, idx_of ai with
+  | Some el, Some z => match norm_idx z (length el) with Some k => nth_error el k | None => None end
+  | _, _ => None
+  end.
+Definition is_some {A} (o : option A) : bool := match o with Some _ => true | None => false end.
+Definition all_elems (a : aval) : list aval :=
+  match sub_elems a with Some el => dedupa (concat el) | None => [] end.
+Definition asub (lz : bool) (idxs : list aval) (a ai : aval) : list aval :=
+  match a with
+  | AAny => [AAny]
+  | AList _ =>
+      if lz && negb (forallb (fun j => is_some (sub_resolved a j)) idxs) then all_elems a
+      else match sub_resolved a ai with Some bs => bs | None => all_elems a end
+  | ATuple _ =>
+      if lz then match idxs with
+                 | [_] => match sub_resolved a ai with Some bs => bs | None => [AAny] end
+                 | _ => [AAny]
+                 end
+      else match sub_resolved a ai with Some bs => bs | None => all_elems a end
+  | _ => []
+  end.
+
 Section ALevel.
   Variable lz : bool.
   (* how a call is analysed (one frame of depth budget less): rows of (caller world, argument bindings) *)
@@ -665,6 +724,13 @@ Section ALevel.
     | EIf c a b => let (tw, fw) := acnd W c in
                    dedupr (aexpr locs tw a ++ aexpr locs fw b)
     | ECall f es => acall ft f (aargs W es)
+    | ESub e' i =>
+        let Re := aexpr locs W e' in
+        let Ri := aexpr locs (dedupw (map fst Re)) i in
+        let idxs := dedupa (map snd Ri) in
+        dedupr (flat_map (fun ra => flat_map (fun ri =>
+                   if world_eqb (fst ra) (fst ri)
+                   then map (fun b => (fst ra, b)) (asub lz idxs (snd ra) (snd ri)) else []) Ri) Re)
     end.
 
   Definition acond (locs : option (list name)) := acond_with (fun W1 e1 => aexpr locs W1 e1).
@@ -781,6 +847,8 @@ Section Leaks.
         let (tv, fv) := cd vm Wv c in let (tl_, fl) := cd true Wl c in
         lkc Wv Wl c false ++ lk_expr_with lkc tv tl_ a ++ lk_expr_with lkc fv fl b
     | ECall _ es => args Wv Wl es
+    | ESub a i => lk_expr_with lkc Wv Wl a
+                  ++ lk_expr_with lkc (worlds_of (ex vm Wv a)) (worlds_of (ex true Wl a)) i
     | _ => []
     end.
 
@@ -824,7 +892,7 @@ Section Leaks.
       | EList es | ETuple es | ESet es | ECall _ es => sz es
       | EDict ks vs => sz ks + sz vs
       | ENot a | EIsNone a | EIsNotNone a | EIsInst a _ => esize a
-      | EAnd a b | EOr a b => esize a + esize b
+      | EAnd a b | EOr a b | ESub a b => esize a + esize b
       | EIf c a b => esize c + esize a + esize b
       | _ => 0
       end.
@@ -1139,6 +1207,7 @@ Section Keys.
                      | 0 => []                     (* depth cut-off: the call is not analysed, nothing is cached *)
                      | S _ => [(f, columns (length es) (map snd R))]
                      end ++ ckcall ft f R
+    | ESub a i => ck_expr_with ckc locs W a ++ ck_expr_with ckc locs (worlds_of (ex locs W a)) i
     | _ => []
     end.
 
